@@ -1038,7 +1038,7 @@ C15.cli_rejections = _c15_cli_rejections
 
 class C17(Check):
     pid = "C17"
-    lean_modules = ["MTProps.C17", "MTProps.CodeRun"]
+    lean_modules = ["MTProps.C17", "MTProps.CodeRun", "MTProps.CodeInit"]
 
     def body(self):
         rng = self.rng
